@@ -174,6 +174,10 @@ def build_mesh(c):
         r1d, z1d, psi2d, psi1d, opts, wall, kw = tokamak_inputs(c)
         eq = tokamak.TokamakEquilibrium(r1d, z1d, psi2d, psi1d, settings=opts, wall=wall, **kw)
         mesh = BoutMesh(eq, opts)
+        if c.get("regrid") is not None:
+            # the interactive route: regrid an existing non-orthogonal mesh with new nonorthogonal_* settings
+            mesh.redistributePoints(dict(c["regrid"]))
+            mesh.calculateRZ()
         mesh.geometry()
         return eq, mesh
     if c["kind"] == "circular":
